@@ -15,6 +15,7 @@ import (
 	"strconv"
 	"strings"
 	"sync"
+	"sync/atomic"
 	"time"
 
 	"verif/engine/gosym"
@@ -220,6 +221,8 @@ func runCheck(args []string) int {
 			defer os.Remove(crossLog)
 		}
 	}
+	var stopAll int32
+	violationsSoFar := 0
 	var outs []cellOut
 	var wg sync.WaitGroup
 	stats := make([]gosym.Stats, nw)
@@ -242,15 +245,23 @@ func runCheck(args []string) int {
 				return
 			}
 			defer in.Close()
+			in.Stop = &stopAll
 			if w == 0 && crossLog != "" {
 				in.LogSolverTo(crossLog)
 			}
 			for j := range jobCh {
 				fn := prog.FindFunc(j.h.Func)
 				in.SetOptions(gosym.Options{MaxDigits: j.h.Digits, MapOrderPerms: j.h.MapPerms, MaxSteps: j.h.MaxSteps, Params: j.h.Params})
+				if atomic.LoadInt32(&stopAll) != 0 {
+					continue // enough violations already: the remaining cells are not explored
+				}
 				res := in.RunHarness(fn, j.prefix, nil)
 				mu.Lock()
 				outs = append(outs, cellOut{j, res})
+				violationsSoFar += len(res.Violations)
+				if violationsSoFar >= 20 {
+					atomic.StoreInt32(&stopAll, 1)
+				}
 				if *verbose {
 					fmt.Printf("  cell %s %v: paths=%d viol=%d inconcl=%d %.1fs\n", j.h.Func, j.prefix, res.Paths, len(res.Violations), len(res.Inconclusive), res.Wall)
 				}
@@ -778,17 +789,16 @@ func runReplayCmd(args []string) int {
 	return 0
 }
 
-
 // ---- second-solver cross-check of a recorded session ----
 
 type crossResult struct {
-	Solver    string
-	Queries   int
-	Agree     int
-	Unknown2  int // second solver answered unknown/timeout where the primary decided
-	Disagree  []string
-	Note      string
-	WallS     float64
+	Solver   string
+	Queries  int
+	Agree    int
+	Unknown2 int // second solver answered unknown/timeout where the primary decided
+	Disagree []string
+	Note     string
+	WallS    float64
 }
 
 func (c *crossResult) summary() interface{} {
